@@ -30,6 +30,7 @@ import (
 	"strings"
 	"sync"
 	"sync/atomic"
+	"syscall"
 	"time"
 
 	pkglint "github.com/rillig/pkglint/v23"
@@ -265,7 +266,17 @@ func c10shWorker() {
 	in.Buffer(make([]byte, 1<<16), 1<<24)
 	out := bufio.NewWriter(os.Stdout)
 	var mu sync.Mutex
-	var started atomic.Int64
+	// The limit is on CPU time of this process since the input was started (a non-returning
+	// loop burns CPU), so that a loaded machine cannot raise the alarm; wall time only as a
+	// distant fallback.
+	cpu := func() int64 {
+		var ru syscall.Rusage
+		if syscall.Getrusage(syscall.RUSAGE_SELF, &ru) != nil {
+			return 0
+		}
+		return ru.Utime.Nano() + ru.Stime.Nano()
+	}
+	var started, startedCPU atomic.Int64
 	go func() {
 		var ms runtime.MemStats
 		for {
@@ -274,8 +285,12 @@ func c10shWorker() {
 			if t0 == 0 {
 				continue
 			}
+			c0 := startedCPU.Load()
 			runtime.ReadMemStats(&ms)
-			if time.Since(time.Unix(0, t0)) > limit || ms.HeapAlloc > 3<<30 {
+			if time.Duration(cpu()-c0) > limit || time.Since(time.Unix(0, t0)) > 30*limit || ms.HeapAlloc > 3<<30 {
+				if started.Load() != t0 {
+					continue // that input has just finished
+				}
 				mu.Lock()
 				out.WriteString("HANG\n")
 				out.Flush()
@@ -286,6 +301,7 @@ func c10shWorker() {
 	n := 0
 	for in.Scan() {
 		input := unhx(strings.TrimSpace(in.Text()))
+		startedCPU.Store(cpu())
 		started.Store(time.Now().UnixNano())
 		im := c10shRunImpl(input)
 		started.Store(0)
@@ -735,7 +751,7 @@ func c10shReportHang(res *Result, input, family string, limit time.Duration) boo
 	if !out[0].hung {
 		return false // slow machine, not a hang
 	}
-	res.AddViolation(Violation{Key: "C10/sh/hang", What: fmt.Sprintf("the tokenizers do not return within %v on %q (or allocate more than 3 GB)", 2*limit, input),
+	res.AddViolation(Violation{Key: "C10/sh/hang", What: fmt.Sprintf("the tokenizers do not return within %v of CPU time on %q (or allocate more than 3 GB)", 2*limit, input),
 		FoundInput: true, Size: 1 + len(input),
 		Replay: map[string]any{"input": hx(input), "input_quoted": q(input), "family": family, "kind": "hang"}})
 	return true
@@ -746,6 +762,106 @@ func (r *c10shRun) exhLen() int {
 		return 5
 	}
 	return 4
+}
+
+// ---------- second evaluation path: the extracted oracle against vm_compute ----------
+
+var c10shQuotCtors = []string{"QPlain", "QDquot", "QSquot", "QBackt", "QSubsh", "QDquotBackt", "QBacktDquot", "QBacktSquot",
+	"QSubshDquot", "QSubshSquot", "QSubshBackt", "QDquotBacktDquot", "QDquotBacktSquot"}
+
+func c10shCoqStr(s string) string {
+	if s == "" {
+		return "(@nil N)"
+	}
+	parts := make([]string, len(s))
+	for i := 0; i < len(s); i++ {
+		parts[i] = strconv.Itoa(int(s[i]))
+	}
+	return "[" + strings.Join(parts, "; ") + "]"
+}
+
+// c10shCrossCheck lets coqc evaluate the model (vm_compute) on a sample of the cases and
+// compares with what the extracted OCaml oracle answered.
+func c10shCrossCheck(ctx *Ctx, res *Result, inputs []string) {
+	if len(inputs) == 0 || res.Broken != "" {
+		return
+	}
+	ans, err := c10shRunWorkers(inputs, 4, 10*time.Second)
+	if err != nil {
+		res.Broken = err.Error()
+		return
+	}
+	var reqs []string
+	var ins []string
+	var tbls []string
+	for i, a := range ans {
+		if a.hung || a.skipped {
+			continue
+		}
+		reqs = append(reqs, "f "+a.tbl+" "+hx(inputs[i]))
+		ins = append(ins, inputs[i])
+		tbls = append(tbls, a.tbl)
+	}
+	lines, err := c10shOraclePool(ctx, reqs, 4)
+	if err != nil {
+		res.Broken = err.Error()
+		return
+	}
+	var sb strings.Builder
+	sb.WriteString("From PV Require Import Lib.Bytes Model.ShTok.\nOpen Scope N_scope.\n")
+	sb.WriteString("Definition view (r : res (list atom * state)) := match r with Ok (l, (_, rest)) => Some (map a_text l, map a_quot l, rest) | _ => None end.\n")
+	n := 0
+	for i, line := range lines {
+		secs := strings.Split(line, "|")
+		for _, qi := range []int{0, 1 + (i % 12)} {
+			if qi >= len(secs) {
+				continue
+			}
+			_, body, _ := strings.Cut(secs[qi], ":")
+			if strings.HasPrefix(body, "!") {
+				fmt.Fprintf(&sb, "Example c%d : view (sh_atoms_from (table_expr %d [%s]%%nat) %s (false, %s)) = None.\nProof. vm_compute. reflexivity. Qed.\n",
+					n, len(ins[i]), strings.ReplaceAll(tbls[i], ",", "; "), c10shQuotCtors[qi], c10shCoqStr(ins[i]))
+				n++
+				continue
+			}
+			atoms, rest, _ := strings.Cut(body, ";")
+			var texts, quots []string
+			if atoms != "" {
+				for _, a := range strings.Split(atoms, ",") {
+					t, qs, _ := strings.Cut(a, ".")
+					k, _ := strconv.Atoi(qs)
+					texts = append(texts, c10shCoqStr(unhx(t)))
+					quots = append(quots, c10shQuotCtors[k%13])
+				}
+			}
+			tl, ql := "(@nil str)", "(@nil quoting)"
+			if len(texts) > 0 {
+				tl, ql = "["+strings.Join(texts, "; ")+"]", "["+strings.Join(quots, "; ")+"]"
+			}
+			fmt.Fprintf(&sb, "Example c%d : view (sh_atoms_from (table_expr %d [%s]%%nat) %s (false, %s)) = Some (%s, %s, %s).\nProof. vm_compute. reflexivity. Qed.\n",
+				n, len(ins[i]), strings.ReplaceAll(tbls[i], ",", "; "), c10shQuotCtors[qi], c10shCoqStr(ins[i]), tl, ql, c10shCoqStr(unhx(rest)))
+			n++
+		}
+	}
+	file := filepath.Join(ctx.Work, "c10sh_cases.v")
+	if err := os.WriteFile(file, []byte(sb.String()), 0o644); err != nil {
+		res.Broken = err.Error()
+		return
+	}
+	cmd := exec.Command("timeout", "300", "coqc", "-Q", filepath.Join(ctx.Verif, "coq"), "PV", file)
+	cmd.Dir = ctx.Work
+	out, err := cmd.CombinedOutput()
+	if err != nil {
+		msg := string(out)
+		if len(msg) > 600 {
+			msg = msg[:600]
+		}
+		res.AddViolation(Violation{Key: "C10/sh/extraction-differs-from-vm_compute",
+			What: "coqc (vm_compute) does not reproduce the extracted oracle's answers on the sampled cases: " + strings.Join(strings.Fields(msg), " "),
+			Replay: map[string]any{"broken": "cross-check extracted OCaml model = vm_compute", "coqc": msg}})
+		return
+	}
+	res.Count("cases_rechecked_by_vm_compute", n)
 }
 
 // ---------- generators ----------
@@ -929,6 +1045,24 @@ func runC10sh(ctx *Ctx) *Result {
 		}
 	}
 	flush("random", false)
+
+	// second evaluation path for the model itself
+	var sample []string
+	for i := 0; i < 60; i++ {
+		switch i % 3 {
+		case 0:
+			sample = append(sample, c10shGrammar(rng))
+		case 1:
+			sample = append(sample, c10shRandom(rng))
+		default:
+			b := make([]byte, 1+rng.Intn(5))
+			for j := range b {
+				b[j] = Pick(rng, c10shAlphabet)
+			}
+			sample = append(sample, string(b))
+		}
+	}
+	c10shCrossCheck(ctx, res, sample)
 
 	res.Evaluations = r.inputs * 15
 	res.TracesValidated = r.inputs * 15
